@@ -149,14 +149,14 @@ theorem cache_transparent (z : Zone) (wf : WF z) (c : ZRng) (hc : CacheOK z c) (
     ∃ c', offsC z c t = some (off z t, c') ∧ CacheOK z c' :=
   offsC_spec z wf c hc t ht
 
-/-- `time_t` arguments outside int32 are truncated first -/
-theorem cache_transparent_wrap (z : Zone) (wf : WF z) (c : ZRng) (hc : CacheOK z c) (t : Int) :
-    ∃ c', offsC z c t = some (off z (wrap32 t), c') ∧ CacheOK z c' := by
-  have hw : I32 (wrap32 t) := by rw [I32_iff]; unfold wrap32; omega
-  obtain ⟨c', e, h⟩ := offsC_spec z wf c hc (wrap32 t) hw
+/-- `time_t` arguments outside int32 are clamped first (`__clamp`), they do not wrap -/
+theorem cache_transparent_clamp (z : Zone) (wf : WF z) (c : ZRng) (hc : CacheOK z c) (t : Int) :
+    ∃ c', offsC z c t = some (off z (clamp32 t), c') ∧ CacheOK z c' := by
+  have hw : I32 (clamp32 t) := clamp32_I32 t
+  obtain ⟨c', e, h⟩ := offsC_spec z wf c hc (clamp32 t) hw
   refine ⟨c', ?_, h⟩
   unfold offsC at e ⊢
-  rw [wrap32_of_I32 _ hw] at e
+  rw [clamp32_idem] at e
   exact e
 
 /-- any sequence of look-ups (`offsSeq` threads the cache through) returns the uncached offsets -/
@@ -176,6 +176,35 @@ theorem cacheOK_of_cacheRng (z : Zone) (wf : WF z) (c : ZRng) (h : CacheRng z c)
 theorem cache_transparent_rng (z : Zone) (wf : WF z) (c : ZRng) (hc : CacheRng z c) (t : Int) (ht : I32 t) :
     offsC z c t = some (off z t, rngAt z (trIdx z t)) ∧ CacheRng z (rngAt z (trIdx z t)) :=
   ⟨offsC_rng z wf c hc t ht, cacheRng_rngAt z t ht⟩
+
+/-- the look-up only ever sees the clamped instant -/
+theorem offsC_clamp (z : Zone) (c : ZRng) (t : Int) : offsC z c t = offsC z c (clamp32 t) := by
+  unfold offsC; rw [clamp32_idem]
+
+/-- behind the end of the table the offset stays what it was: every instant at or beyond `intMax` gets the
+offset (and leaves the range) of `intMax`, i.e. of the last stretch; nothing wraps into the past -/
+theorem offs_beyond_table (z : Zone) (wf : WF z) (c : ZRng) (hc : CacheRng z c) (t : Int) (ht : t ≥ intMax) :
+    offsC z c t = some (off z intMax, rngAt z (trIdx z intMax)) := by
+  have e : clamp32 t = intMax := by
+    unfold clamp32
+    by_cases h : t > intMax
+    · rw [if_pos h]
+    · have : t = intMax := by omega
+      subst this; decide
+  rw [offsC_clamp, e]
+  exact offsC_rng z wf c hc intMax (by decide)
+
+/-- likewise before its beginning -/
+theorem offs_before_table (z : Zone) (wf : WF z) (c : ZRng) (hc : CacheRng z c) (t : Int) (ht : t ≤ intMin) :
+    offsC z c t = some (off z intMin, rngAt z (trIdx z intMin)) := by
+  have e : clamp32 t = intMin := by
+    unfold clamp32
+    by_cases h : t < intMin
+    · rw [if_neg (by unfold intMax; unfold intMin at h; omega), if_pos h]
+    · have : t = intMin := by omega
+      subst this; decide
+  rw [offsC_clamp, e]
+  exact offsC_rng z wf c hc intMin (by decide)
 
 /-! ### 4. local ↔ UTC -/
 
@@ -485,6 +514,10 @@ example : (instantLoc zBer ZRng.fresh ⟨2020,12,31,23,30,0,1023⟩).map (·.1) 
 example : (instantLoc zBer ZRng.fresh ⟨2020,7,1,255,0,0,0⟩).map (·.1) = some ⟨2020,7,1,255,0,0,0⟩ := by decide
 example : tzobOffs zBer ⟨2020,3,29,1,0,0,1023⟩ = some 7200 := by decide
 example : tzobOffs zBer ⟨2020,3,29,0,59,59,1023⟩ = some 3600 := by decide
+-- the year 2080 is behind the table: the offset of its last stretch, not that of 1944 (−811031956, where the wrap led)
+example : (offsC zBer ZRng.fresh 3483935340).map (·.1) = some 3600 := by decide
+example : offsC zBer ZRng.fresh 3483935340 = offsC zBer ZRng.fresh 2147483647 := by decide
+example : wrap32 3483935340 = -811031956 := by decide
 
 /-! ### witnesses: skipped and repeated local times east and west of Greenwich -/
 
